@@ -12,6 +12,7 @@ import (
 	"io"
 	"net"
 	"os"
+	"sync"
 	"syscall"
 	"time"
 
@@ -46,6 +47,8 @@ type half struct {
 
 // VConn is one end of a virtual connection.
 type VConn struct {
+	mu       *sync.Mutex // shared by both ends; used in free-running mode only
+	cond     *sync.Cond
 	linger0  bool
 	id       int
 	in, out  *half
@@ -75,6 +78,7 @@ type registry struct {
 // Alias makes dialling name reach the listener at addr; the connection's RemoteAddr is addr, as
 // after a real name resolution.
 func Alias(name, addr string) {
+	defer regLock()()
 	r := reg()
 	if r.aliases == nil {
 		r.aliases = map[string]string{}
@@ -82,10 +86,61 @@ func Alias(name, addr string) {
 	r.aliases[name] = addr
 }
 
+// ---- free-running mode ---------------------------------------------------------
+//
+// Outside a controlled execution (the -race pass runs the real code with real goroutines) the virtual network
+// is an ordinary thread-safe in-memory network: every connection pair has its own mutex and condition variable
+// (so that happens-before edges follow the data, as with sockets), the registry and the listeners share one.
+// Deadlines, faults and short reads do not exist in this mode.
+
+var (
+	freeMu   sync.Mutex
+	freeCond = sync.NewCond(&freeMu)
+	freeReg  *registry
+)
+
+// FreeReset starts a fresh network for the next free-running run.
+func FreeReset() {
+	freeMu.Lock()
+	freeReg = &registry{listeners: map[string]*listener{}, nextPort: 40000}
+	freeMu.Unlock()
+}
+
+// regLock serialises registry and listener operations in free-running mode.
+func regLock() func() {
+	if sched.E != nil {
+		return func() {}
+	}
+	freeMu.Lock()
+	return func() { freeCond.Broadcast(); freeMu.Unlock() }
+}
+
+func (c *VConn) lock() func() {
+	if sched.E != nil {
+		return func() {}
+	}
+	c.mu.Lock()
+	return func() { c.cond.Broadcast(); c.mu.Unlock() }
+}
+
+// wait blocks until ready() holds: through the scheduler, or on the pair's condition variable (held lock).
+func (c *VConn) wait(kind string, ready func() bool) {
+	if sched.E != nil {
+		sched.Wait(kind, c, ready)
+		return
+	}
+	for !ready() {
+		c.cond.Wait()
+	}
+}
+
 func reg() *registry {
 	e := sched.E
 	if e == nil {
-		panic("vnet: used outside a controlled execution")
+		if freeReg == nil {
+			panic("vnet: used outside a controlled execution without FreeReset")
+		}
+		return freeReg
 	}
 	r, _ := e.Data["vnet"].(*registry)
 	if r == nil {
@@ -96,10 +151,10 @@ func reg() *registry {
 }
 
 // SetDialHook installs a function consulted by every dial; a non-nil error is returned to the dialer.
-func SetDialHook(f func(addr string) error) { reg().dialHook = f }
+func SetDialHook(f func(addr string) error) { defer regLock()(); reg().dialHook = f }
 
 // Conns returns every connection end created in this execution.
-func Conns() []*VConn { return reg().conns }
+func Conns() []*VConn { defer regLock()(); return append([]*VConn(nil), reg().conns...) }
 
 func (c *VConn) String() string {
 	return fmt.Sprintf("conn%d[%s %s->%s]", c.id, c.Label, c.local, c.remote)
@@ -110,12 +165,16 @@ func newPair(r *registry, client, server Addr) (*VConn, *VConn) {
 	a := &VConn{id: len(r.conns), in: b2a, out: a2b, local: client, remote: server}
 	b := &VConn{id: len(r.conns) + 1, in: a2b, out: b2a, local: server, remote: client, server: true}
 	a.peer, b.peer = b, a
+	a.mu = &sync.Mutex{}
+	a.cond = sync.NewCond(a.mu)
+	b.mu, b.cond = a.mu, a.cond
 	r.conns = append(r.conns, a, b)
 	return a, b
 }
 
 // Pipe returns two connected ends without a listener.
 func Pipe() (*VConn, *VConn) {
+	defer regLock()()
 	r := reg()
 	r.nextPort++
 	return newPair(r, Addr(fmt.Sprintf("127.0.0.1:%d", r.nextPort)), Addr("10.0.0.1:1"))
@@ -181,7 +240,8 @@ func (c *VConn) readReady() bool {
 }
 
 func (c *VConn) Read(b []byte) (int, error) {
-	sched.Wait("net-read", c, c.readReady)
+	defer c.lock()()
+	c.wait("net-read", c.readReady)
 	c.maybeFault("read")
 	c.ReadN++
 	switch {
@@ -216,6 +276,7 @@ func (c *VConn) Read(b []byte) (int, error) {
 }
 
 func (c *VConn) Write(b []byte) (int, error) {
+	defer c.lock()()
 	sched.Op("net-write", c)
 	c.maybeFault("write")
 	c.WriteN++
@@ -244,6 +305,7 @@ func (c *VConn) Write(b []byte) (int, error) {
 // queue); how much was already delivered is not under the sender's control, so "nothing of the unread part"
 // is one of the possible outcomes and the one modelled.
 func (c *VConn) SetLinger(sec int) error {
+	defer c.lock()()
 	c.linger0 = sec == 0
 	return nil
 }
@@ -253,6 +315,7 @@ func (c *VConn) SetKeepAlivePeriod(time.Duration) error { return nil }
 func (c *VConn) SetNoDelay(bool) error                  { return nil }
 
 func (c *VConn) Close() error {
+	defer c.lock()()
 	sched.Op("net-close", c)
 	if c.closed {
 		return opErr("close", c, errClosed)
@@ -271,6 +334,7 @@ func (c *VConn) Close() error {
 
 // CloseWrite shuts down the writing side (FIN).
 func (c *VConn) CloseWrite() error {
+	defer c.lock()()
 	sched.Op("net-closewrite", c)
 	if c.closed {
 		return opErr("close", c, errClosed)
@@ -281,6 +345,7 @@ func (c *VConn) CloseWrite() error {
 
 // CloseRead shuts down the reading side.
 func (c *VConn) CloseRead() error {
+	defer c.lock()()
 	sched.Op("net-closeread", c)
 	if c.closed {
 		return opErr("close", c, errClosed)
@@ -292,6 +357,7 @@ func (c *VConn) CloseRead() error {
 
 // Reset injects a connection reset seen by both ends (buffered data is lost).
 func (c *VConn) Reset() {
+	defer c.lock()()
 	sched.Op("net-reset", c)
 	c.in.reset, c.out.reset = true, true
 	c.in.buf, c.out.buf = nil, nil
@@ -307,6 +373,9 @@ func (c *VConn) SetDeadline(t time.Time) error {
 }
 
 func (c *VConn) SetReadDeadline(t time.Time) error {
+	if sched.E == nil {
+		return nil // no deadlines in free-running mode
+	}
 	if c.closed {
 		return opErr("set", c, errClosed)
 	}
@@ -326,6 +395,9 @@ func (c *VConn) SetReadDeadline(t time.Time) error {
 }
 
 func (c *VConn) SetWriteDeadline(t time.Time) error {
+	if sched.E == nil {
+		return nil
+	}
 	if c.closed {
 		return opErr("set", c, errClosed)
 	}
@@ -346,13 +418,13 @@ func (c *VConn) SetWriteDeadline(t time.Time) error {
 
 // ---- inspection for oracles -----------------------------------------------
 
-func (c *VConn) IsClosed() bool     { return c.closed }
+func (c *VConn) IsClosed() bool     { defer c.lock()(); return c.closed }
 func (c *VConn) Peer() *VConn       { return c.peer }
 func (c *VConn) IsServerSide() bool { return c.server }
-func (c *VConn) Buffered() int      { return len(c.in.buf) }
-func (c *VConn) PeerFinished() bool { return c.in.wclosed }
-func (c *VConn) TotalWritten() int  { return c.out.total }
-func (c *VConn) WasReset() bool     { return c.in.reset }
+func (c *VConn) Buffered() int      { defer c.lock()(); return len(c.in.buf) }
+func (c *VConn) PeerFinished() bool { defer c.lock()(); return c.in.wclosed }
+func (c *VConn) TotalWritten() int  { defer c.lock()(); return c.out.total }
+func (c *VConn) WasReset() bool     { defer c.lock()(); return c.in.reset }
 
 // ---- listeners and dialing --------------------------------------------------
 
@@ -368,6 +440,7 @@ type listener struct {
 // Listen binds addr; it fails if the address is in use.
 func Listen(network, address string) (net.Listener, error) {
 	sched.Op("net-listen", Addr(address))
+	defer regLock()()
 	r := reg()
 	if l, ok := r.listeners[address]; ok && !l.closed {
 		return nil, &net.OpError{Op: "listen", Net: network, Addr: Addr(address), Err: syscall.EADDRINUSE}
@@ -379,12 +452,14 @@ func Listen(network, address string) (net.Listener, error) {
 
 // Bound reports whether a live listener is bound to address.
 func Bound(address string) bool {
+	defer regLock()()
 	l, ok := reg().listeners[address]
 	return ok && !l.closed
 }
 
 // AcceptedAt returns the number of connections accepted so far at address.
 func AcceptedAt(address string) int {
+	defer regLock()()
 	if l, ok := reg().listeners[address]; ok {
 		return l.Accepted
 	}
@@ -394,7 +469,15 @@ func AcceptedAt(address string) int {
 func (l *listener) String() string { return "listener[" + string(l.addr) + "]" }
 
 func (l *listener) Accept() (net.Conn, error) {
-	sched.Wait("net-accept", l, func() bool { return l.closed || len(l.backlog) > 0 || len(l.acceptErrs) > 0 })
+	defer regLock()()
+	ready := func() bool { return l.closed || len(l.backlog) > 0 || len(l.acceptErrs) > 0 }
+	if sched.E != nil {
+		sched.Wait("net-accept", l, ready)
+	} else {
+		for !ready() {
+			freeCond.Wait()
+		}
+	}
 	if l.closed {
 		return nil, &net.OpError{Op: "accept", Net: "tcp", Addr: l.addr, Err: errClosed}
 	}
@@ -411,14 +494,17 @@ func (l *listener) Accept() (net.Conn, error) {
 
 func (l *listener) Close() error {
 	sched.Op("net-listener-close", l)
+	defer regLock()()
 	if l.closed {
 		return &net.OpError{Op: "close", Net: "tcp", Addr: l.addr, Err: errClosed}
 	}
 	l.closed = true
 	// connections still in the backlog are reset, as the kernel does
 	for _, c := range l.backlog {
+		unlock := c.lock()
 		c.closed = true
 		c.out.reset, c.in.reset = true, true
+		unlock()
 	}
 	l.backlog = nil
 	return nil
@@ -446,6 +532,7 @@ func DialTimeout(network, address string, timeout time.Duration) (net.Conn, erro
 // Dial connects to a vnet listener.
 func Dial(network, address string) (net.Conn, error) {
 	sched.Op("net-dial", Addr(address))
+	defer regLock()()
 	r := reg()
 	if r.dialHook != nil {
 		if err := r.dialHook(address); err != nil {
@@ -477,6 +564,7 @@ func DialConn(address string) (*VConn, error) {
 
 // InjectAcceptError makes the listener at address return err from its next Accept.
 func InjectAcceptError(address string, err error) {
+	defer regLock()()
 	if l, ok := reg().listeners[address]; ok {
 		l.acceptErrs = append(l.acceptErrs, err)
 	}
